@@ -81,7 +81,7 @@ def _events():
     ev("persistent fr parser", lambda a: _pp("fr", languages=["fr"]).get_date_data("02/03/2015"), core=True)
     ev("persistent S1 parser", lambda a: _pp("s1", languages=["en"], settings=a["s"]).get_date_data("March"), {"s": dict(S1)}, core=True)
     ev("fresh S1 parser", lambda a: DateDataParser(languages=["en"], settings=a["s"]).get_date_data("March"), {"s": dict(S1)})
-    ev("search(en)", lambda a: search_dates("on 2 March 2015 and yesterday at noon", languages=a["l"]), {"l": ["en"]}, core=True)
+    ev("search(en)", lambda a: search_dates("on 2 March 2015 and yesterday", languages=a["l"]), {"l": ["en"]}, core=True)
     ev("search(fr, S1)", lambda a: search_dates("le 2 mars 2015 et hier", languages=a["l"], settings=a["s"]), {"l": ["fr"], "s": dict(S1)}, core=True)
     ev("search(en, S1, lang)", lambda a: search_dates("in March, then on 5 May 2011", languages=["en"], settings=a["s"], add_detected_language=True), {"s": dict(S1)})
     ev("search(autodetect)", lambda a: search_dates("El 2 de marzo de 2015 y ayer"), slow=True)
